@@ -10,7 +10,8 @@
 (* Replay-only restrictions (state predicates, not part of the design):    *)
 (*   - the retry timer (500 ms of real time) fires at most MaxRetry times  *)
 (*   - the re-check after publishing l.ln (repaired code) has no hook      *)
-(*     point, so it directly follows SrvPublish                            *)
+(*     point, so it directly follows SrvPublish; likewise the third step   *)
+(*     of Drain (closing the socket it found) directly follows the second  *)
 (***************************************************************************)
 EXTENDS Listener, Json
 
@@ -41,6 +42,7 @@ GenEnv == (\E c \in H : PeerConnect(c) \/ PeerClose(c)) \/ PortFreed \/ (CallsAl
 \* the base actions that may happen in a generated behaviour (used for ENABLED)
 GenBase ==
   IF srv = "recheck" THEN SrvRecheck
+  ELSE IF drn = "d2" THEN Drain2
   ELSE \/ SrvStart \/ SrvCheck \/ SrvBind \/ (TimerAllowed /\ SrvRetry) \/ SrvPublish
        \/ SrvAccept \/ SrvAcceptErr \/ SrvWait \/ SrvCloseDone
        \/ (\E c \in H : HandlerNext(c)) \/ StopNext \/ DrainNext \/ GenEnv
@@ -56,6 +58,7 @@ Finish ==
 GenNext ==
   /\ ~finished
   /\ IF srv = "recheck" THEN SrvRecheck /\ Log("SrvRecheck", "serve", "") /\ UNCHANGED nretry
+     ELSE IF drn = "d2" THEN Drain2 /\ Log("Drain2", "drain", "") /\ UNCHANGED nretry
      ELSE
        \/ SrvStart /\ Log("SrvStart", "serve", "") /\ UNCHANGED nretry
        \/ SrvCheck /\ Log("SrvCheck", "serve", "") /\ UNCHANGED nretry
